@@ -44,6 +44,8 @@ def _case(draw, max_nodes):
     # waits for; the graph is run twice on the same runner (second run: warm cache)
     c["cached"] = draw(st.lists(st.integers(0, 11), max_size=4)) if prob(draw, 0.35) else None
     c["signal"] = [draw(st.integers(0, 11)), draw(st.integers(0, 11))]
+    # an interval of the dependency order run as ONE nested graph node (bindings stay on the outer graph): same values
+    c["nest"] = [draw(st.integers(0, 11)), draw(st.integers(1, 3))] if prob(draw, 0.35) else None
     return c
 
 
@@ -175,6 +177,34 @@ def check_case(case, ev):
                     raise Violation("c01.values", f"[{rk}:cache run {rep} ({'warm' if rep else 'cold'}), cacheable={sorted(cn)}] {out.brief()} expected {J(exp)}; missing={missing}",
                                     what="missing" if missing else "wrong", cached=True)
         labels.add("cache_two_runs")
+
+    # an interval of a dependency order wrapped as a nested graph node: composition changes no value; in particular a value bound on
+    # the OUTER graph still beats a signature default of a consumer that now sits inside the nested graph
+    if case.get("nest") is not None and len(nodes) >= 2 and not unsat:  # (a wrapper is one unit of scoping: it needs all its inputs)
+        dep = ref.depth(nodes)
+        order_t = sorted(nodes, key=lambda n: (dep[n["name"]], n["name"]))
+        a = case["nest"][0] % len(order_t)
+        b = min(len(order_t), a + case["nest"][1])
+        S = order_t[a:b]
+        if all(n["k"] == "func" and not n.get("gen_style") for n in S):
+            built_by_name = {n["name"]: n for n in built}
+            wrapper = {"k": "graph", "name": "c01w", "graph": {"name": "c01w", "nodes": [dict(built_by_name[n["name"]]) for n in S]}}
+            outer_nodes = [dict(built_by_name[n["name"]]) for n in order_t[:a]] + [wrapper] + [dict(built_by_name[n["name"]]) for n in order_t[b:]]
+            exp = {k: v for k, v in env.items() if select is None or k in select}
+            for rk in ("sync", "async"):
+                ctx = Ctx()
+                try:
+                    gN = make_graph(ctx, {**gspec, "nodes": outer_nodes}, "sync")
+                except Exception as e:  # noqa: BLE001 - whether this interval can be nested at all is C05's subject
+                    ev.count("nest_variant_rejected:" + type(e).__name__)
+                    break
+                outN = (run_sync if rk == "sync" else run_async)(gN, values)
+                if outN.status != "completed" or outN.values != exp:
+                    wrong = sorted(k for k in set(exp) | set(outN.values or {}) if (outN.values or {}).get(k, "<absent>") != exp.get(k, "<absent>"))
+                    raise Violation("c01.values", f"[{rk}: nodes {[n['name'] for n in S]} run as one nested graph node, bind={J(bound)}] {outN.brief()} differs from the dependency-order values in {wrong}: expected "
+                                    f"{J({k: exp.get(k, '<absent>') for k in wrong})}", what="wrong", nested=True)
+            else:
+                labels.add("interval_as_nested_graph_node")
 
     # injection of an intermediate value with on_internal_override="ignore" (only when the validator accepts it):
     # the statement's precedence still decides every argument (upstream output of a runnable producer first, then
